@@ -10,6 +10,7 @@ mod rng;
 mod c07;
 mod opw;
 mod wrap;
+mod col;
 mod json;
 
 pub struct Found {
@@ -65,6 +66,9 @@ fn search(prop: &str, seed: u64, obls: &[String]) -> Option<Found> {
         "C06" => opw::search("c06", seed, 60000),
         "C08" => opw::search("c08", seed, 60000),
         "C09" => wrap::search("c09", seed, 20000),
+        "C10" => col::search("c10", seed, 300),
+        "C11" => col::search("c11", seed, 150),
+        "C14" => col::search("c14", seed, 150),
         "C16" => wrap::search("c16", seed, 20000),
         _ => None,
     }
@@ -75,6 +79,7 @@ fn replay(prop: &str, kind: &str, case: &str) -> Option<Found> {
         "C07" | "C18" => c07::replay(kind, case),
         "C01" | "C02" | "C03" | "C04" | "C05" | "C06" | "C08" => opw::replay(kind, case),
         "C09" | "C16" => wrap::replay(kind, case),
+        "C10" | "C11" | "C14" => col::replay(kind, case),
         _ => None,
     }
 }
